@@ -39,6 +39,7 @@ EXPLANATION = (
 EXPLANATION += (" R-C01-7: no detector attribute holds an alias or view of the caller's chunk (attribute provenance from the effect analysis), and values cached on recorders/detectors are reset by every method that changes what they are computed from (memo rule with a built-in positive example).")
 EXPLANATION += (' R-C01-8: in every detector process() every path to a normal exit passes the _new_turns call (CFG must-pass: no chunk bypasses the tail / head bookkeeping), and no record_* / report_chunk method of a recorder branches on the values it is handed (np.any, truthiness, comparisons) - only on their number.')
 EXPLANATION += (" R-C01-2 (b'): every return of _new_turns that is not dominated by the head-index store is guarded by exactly one test, 'the chunk is empty' (len / size / shape[0] of the chunk or its array conversion compared with 0).")
+EXPLANATION += (" R-C01-1 (iii): an attribute that process() overwrites from a local at its end is carried state - that local starts from the attribute's previous content (carry-in), not from a value re-derived from other state.")
 ASSUMPTIONS = [
     "np.searchsorted(a, v, side) follows its documented bracket on an ascending array",
     "the compiled rainflow_ext kernels are built from extension.pyx",
@@ -251,6 +252,30 @@ def _r1_carried_state(ctx, prog, dets):
             else:
                 ctx.violated(fi, init, "local %r is initialised from self.%s and redefined, but a path reaches the end of "
                              "process() without storing it back: the next chunk restarts from stale state" % (local, attr))
+        # (iii) carry-in: an attribute that is overwritten from a local at the end of process() is the detector's memory of the
+        # chunks before - the local has to start from the attribute's previous content, not from something re-derived
+        for s in walk_function(fi.node):
+            if isinstance(s, ast.Assign) and len(s.targets) == 1 and is_self_attr(s.targets[0]) and isinstance(s.value, ast.Name):
+                attr, local = s.targets[0].attr, s.value.id
+                first = None
+                for st in walk_function(fi.node):
+                    if st is s:
+                        break
+                    if isinstance(st, (ast.Assign, ast.AugAssign)) and any(isinstance(t, ast.Name) and t.id == local for t in assigned_targets(st)):
+                        first = st
+                        break
+                if first is None or isinstance(first, ast.AugAssign):
+                    continue
+                if any(is_self_attr(n, attr) for n in ast.walk(first.value)):
+                    ctx.holds(fi, first, "local %s starts from self.%s, which it is stored back to" % (local, attr))
+                elif any(isinstance(n, ast.Name) and n.id in fi.params for n in ast.walk(first.value)) and \
+                        not any(is_self_attr(n) for n in ast.walk(first.value)):
+                    continue                # built from the chunk itself (not carried state)
+                else:
+                    ctx.violated(fi, first, "self.%s is overwritten from the local %r at the end of process(), but %r starts from `%s` "
+                                 "instead of the attribute's previous content: what the chunks before had accumulated there is "
+                                 "re-derived, a one-piece run and a chunked run diverge" % (attr, local, local, norm_text(first.value)[:70]),
+                                 text="carry-in of self.%s" % attr)
         # (ii) state handed to a helper and returned
         for s in walk_function(fi.node):
             if isinstance(s, ast.Assign) and isinstance(s.value, ast.Call) and len(s.targets) == 1 and \
